@@ -52,13 +52,17 @@ Definition qcol (v : list float) : list Q := let E := emin v in map (f2q_at E) v
 Definition vals (qc : list Q) (ks : list Z) : list Q := map (fun k => nth (Z.to_nat k) qc 0%Q) ks.
 
 (* ------------------------------------------------------------------ targets *)
-Definition eps9 : Q := (1 # 1000000000)%Q.
+(* relative tolerance against the condition-aware scale A of a target.  A two-pass float64 evaluation of
+   n <= ~5000 terms is within ~n * 1.1e-16 * A of the exact value; 1e-12 leaves a factor >= 2 at n = 5000
+   and rejects cancelling one-pass formulas (error ~ 1e-16 * A^2/sigma) as soon as A/sigma > 1e4.
+   (1e-9 until the third follow-up round.) *)
+Definition eps_tol : Q := (1 # 1000000000000)%Q.
 
 Inductive tgt :=
 | TAny                      (* no statement (the standard error of a single-member bin) *)
 | TExact (q : Q)            (* the reported float denotes exactly q: sentinels, copies of data, 0 *)
-| TLin (q A : Q)            (* |reported - q| <= 1e-9 * A *)
-| TSqrt (V A : Q).          (* reported = sqrt V up to 1e-9 * (reported + A), decided on squares *)
+| TLin (q A : Q)            (* |reported - q| <= eps_tol * A *)
+| TSqrt (V A : Q).          (* reported = sqrt V up to eps_tol * (reported + A), decided on squares *)
 
 Definition close_lin_b (y v tol : Q) : bool := Qle_bool (Qabs (y - v)) tol.
 
@@ -71,8 +75,8 @@ Definition meets_q (y : Q) (t : tgt) : bool :=
   match t with
   | TAny => true
   | TExact q => Qeq_bool y q
-  | TLin q A => close_lin_b y q (eps9 * A)
-  | TSqrt V A => close_sqrt_b y V (eps9 * (y + A))
+  | TLin q A => close_lin_b y q (eps_tol * A)
+  | TSqrt V A => close_sqrt_b y V (eps_tol * (y + A))
   end.
 
 Definition meets (f : float) (t : tgt) : bool :=
